@@ -11,27 +11,38 @@ COMMON_TRUSTED = [
 
 PROPS = {
     "C02": {
+        "level_text": "Coq theorems (axiom-free) over a Gallina model of Pattern::match_node_with_env / convert_node_to_pattern: for EVERY tree, every recogniser of meta-variable spellings, every set of non-overlapping holes and trailing ellipsis runs and all five strictness levels the cut pattern matches the code it was cut from and the resulting environment is exactly the recorded bindings (C02_cut_matches, C02_self_match). The model is tied to the code on every run: real tree-sitter parses of 23 languages are dumped, the implementation and the extracted model are run on the same (pattern, node) pairs and outcomes + environments are diffed; the direct oracle runs the property itself on the implementation (cut, re-parse, match at 5 levels, compare bound ranges)",
+        "level_note": "trusted: Coq kernel, extraction (ExtrOcamlBasic only) + OCaml driver, Rust harness; the precondition that the holed text re-parses to the same tree shape is decided per case on the real re-parsed pattern and skipped cases are counted, not proved",
         "streams": ["c02"],
         "cli": False,
         "trusted": ["tree-sitter re-parses the holed text to the same tree shape: decided per case on the real re-parsed pattern (skipped cases are counted), not proved"],
         "assumptions": ["trees are the real tree-sitter parses, dumped per case; node text is the byte slice of its range"],
     },
     "C03": {
+        "level_text": "Coq theorems over the same matcher model as C02 (tied to the code on every run by outcome/environment/length diff on near-miss pairs): soundness of a reported match w.r.t. an independent alignment relation, with the reported prefix length bounded by the node and ending on a descendant boundary. The direct oracle re-checks every match the implementation reports against an independent alignment decision procedure written in Rust from the property text",
+        "level_note": "trusted: Coq kernel, extraction + driver, Rust harness incl. its independent alignment checker; unnamed tokens are compared by kind only (documented behaviour of the code)",
         "streams": ["c03"],
         "cli": False,
         "trusted": ["the alignment relation in Match/Align.v is the reading of the property text (unnamed tokens are compared by kind only, as the code documents)"],
         "assumptions": ["trees are the real tree-sitter parses, dumped per case"],
     },
     "C07": {
+        "level_text": "Coq theorems (axiom-free) over a byte-level Gallina model of create_template / split_first_meta_var / replace_fixer / get_indent_at_offset / extract_with_deindent / indent_lines / remove_indent for ALL byte strings: the template scanner is characterised by an independent tokenizer and round-trips, substitution is verbatim, the indentation law and the self-rewrite identity hold under the property's own restriction. Tied on every run: implementation's generate_replacement / used_vars / insert_transformation vs the extracted model on generated templates, layouts and real captures; direct oracle: self-rewrite is a no-op on the implementation",
+        "level_note": "trusted: Coq kernel, extraction + driver, Rust harness; convert (string_case) and regex replace are not modelled",
         "streams": ["c07"],
         "cli": False,
         "trusted": ["tree-sitter parse of the corpus sources (node ranges are taken from the real parse)"],
         "assumptions": ["the sigil is the single byte '$'; captured ranges are byte ranges of the document; the indentation clause is checked only for captures without blank or under-indented continuation lines (the property's own restriction)"],
     },
     "C20": {
+        "level_text": "Coq theorems over a Gallina model of extract_meta_var / pre_process_pattern / is_matched / Substring::compute for all strings, all indices and all integer bounds (not the property's length bounds); the model is tied to the code on every run by running the extracted model and the Rust functions on the same inputs (exhaustive up to a length bound, 23 languages) and the expando table is re-scraped from the source so the table obligation is re-proved against the code as it is",
+        "level_note": "trusted: Coq kernel, extraction (ExtrOcamlBasic only) + OCaml driver, Rust harness, table scraper; tree-sitter grammars delivering a spelling as one leaf are validated by enumeration, not proved",
         "streams": ["c20"],
         "cli": False,
         "trusted": ["tree-sitter grammars deliver each spelling to extract_meta_var as one leaf (validated by the pattern-shape stream, not proved)"],
         "assumptions": ["strings are sequences of Unicode scalar values; the sigil is '$' (no built-in language overrides meta_var_char)"],
     },
 }
+
+# properties not claimed (yet): reason shown in MANIFEST.not_applicable
+NOT_CLAIMED = {}
